@@ -128,13 +128,16 @@ CALLS = (
     "sys.stderr.write(open('PWNED', 'w').name)",
 )
 NAMES = ("sys.exit", "ast.literal_eval", "cdd", "sys.modules", "open", "exec", "collections.abc.Callable",
-         "cdd.shared.ast_utils", "().__class__", "sys.__dict__", "print", "deepcopy", "exit")
+         "cdd.shared.ast_utils", "().__class__", "sys.__dict__", "print", "deepcopy", "exit",
+         # dotted names whose first component is an importable payload module that is NOT a global of the evaluating
+         # module: a 'helpful' import to resolve them would execute that module
+         "this.s", "antigravity.fly", "sentinel_mod.Thing", "this.d")
 # payloads spelt only with characters that survive (or would survive a widened) word-character filter of
 # parse_adhoc_doc_for_typ: letters, digits, quotes, '/', '|', '.', '(', ')'
 WORDY = ("open('PWNED', 'w')", "sys.exit()", "exit()", "open('PWNED','w')", "print('PWNED')", "eval('1')",
          "exec('1')", "sys.stderr.write('PWNED')", "open('PWNED', 'w').close()", "quit()", "sys.exit",
          "ast.literal_eval", "cdd", "sys.stdout.flush()", "collections.OrderedDict()", "open('PWNED'/'w')",
-         "print('PWNED')|exit()")
+         "print('PWNED')|exit()", "this.s", "antigravity.fly", "this.d")
 BENIGN_TYPES = ("int", "str", "bool", "float", "Optional[int]", "Optional[str]", "List[str]", "Literal['a', 'b']")
 TYPE_POOL = BENIGN_TYPES + CALLS[:8] + (
     "Union[sys.exit, ast.literal_eval]", "cdd", "List[open('PWNED', 'w')]", "Optional[__import__('antigravity')]",
@@ -142,7 +145,12 @@ TYPE_POOL = BENIGN_TYPES + CALLS[:8] + (
     "Optional[__import__('sentinel_mod')]", "open(__import__('os').getcwd() + '/PWNED_ABS', 'w')",
 )
 BENIGN_DEFAULTS = ("5", "'a'", "True", "None", "0.5")
-DEFAULT_POOL = BENIGN_DEFAULTS + CALLS + ("sys.exit", "().__class__", "cdd")
+DEFAULT_POOL = BENIGN_DEFAULTS + CALLS + ("sys.exit", "().__class__", "cdd",
+                                           # arithmetic shapes (BinOp / UnaryOp / compare) around a literal-rooted dunder chain
+                                           "60 * 60", "().__class__.__mro__[1].__subclasses__() * 0",
+                                           "[].__class__.__base__.__subclasses__().__len__() * 0 + 1",
+                                           "-(().__class__.__mro__[1].__subclasses__().__len__())",
+                                           "1 if ().__class__.__mro__[1].__subclasses__() else 0")
 DOC_DEFAULT_POOL = (None, "5", "'a'", "True", "None") + (
     "open('PWNED', 'w')", "__import__('os').system('touch PWNED')", "exec(\"open('PWNED','w')\")",
     "open('PWNED','w').write('1')", "().__class__.__mro__[1].__subclasses__()", "exit()",
